@@ -92,6 +92,9 @@ def _param_ids(f):
     return out
 
 
+_FACTS = None      # set by EmitScan / jump_fn: instr_values follows calls of crate functions that pick an opcode
+
+
 def instr_values(f, e, depth=0):
     """the set of Instruction variants an opcode expression can evaluate to, following single-function locals through
     their initialisers / assignments and `if`/`match`/block values; None when not determined (a parameter, a call)"""
@@ -134,6 +137,19 @@ def instr_values(f, e, depth=0):
         if e["block"].get("expr") is None:
             return None
         return instr_values(f, e["block"]["expr"], depth + 1)
+    if k in ("call", "mcall") and _FACTS is not None:
+        # a crate function that picks the opcode: the values of everything it returns
+        for n in hir_callee(e):
+            g = _FACTS.fn(n, required=False)
+            if g is not None and g.hir and g is not f:
+                rets = _returned_exprs(g)
+                out = set()
+                for r_ in rets:
+                    v = instr_values(g, r_, depth + 1)
+                    if v is None:
+                        return None
+                    out |= v
+                return out or None
     return None
 
 
@@ -141,7 +157,7 @@ def resolved_ctor(f, e):
     """instr_ctor, with a local that can only hold known variants resolved: one variant -> its name, several ->
     ('multi', (names..))"""
     v = instr_ctor(e)
-    if isinstance(v, tuple) and f is not None and f.hir:
+    if (v is None or isinstance(v, tuple)) and f is not None and f.hir:
         vals = instr_values(f, e)
         if vals:
             return sorted(vals)[0] if len(vals) == 1 else ("multi", tuple(sorted(vals)))
@@ -162,6 +178,8 @@ class EmitScan:
     """Abstract walk over the HIR of one Compiler method collecting emissions and their operands."""
 
     def __init__(self, F, summaries):
+        global _FACTS
+        _FACTS = F
         self.F = F
         self.summaries = summaries   # short fn path -> {'lead': [types], 'emits': bool}
         self.emissions = []
@@ -218,6 +236,58 @@ class EmitScan:
                 return True
         return False
 
+    def fixed_operand_loop(self, e):
+        """a `for` over an array of statically known length whose body does nothing to the bytecode but write operands
+        (directly or through operand-only helpers): [(operand types of one pass, line)] * length, else None"""
+        if not (e.get("source") or "").startswith("ForLoopDesugar"):
+            return None
+        sc = hir_strip(e["scrut"])
+        if sc is None or sc.get("k") != "call" or not any(n.endswith("IntoIterator::into_iter") for n in hir_callee(sc)) or not sc["args"]:
+            return None
+        arr = hir_strip(sc["args"][0])
+        n = None
+        if arr is not None and arr.get("k") == "array":
+            n = len(arr["elems"])
+        else:
+            import re
+            m = re.match(r"^\[.*; (\d+)\]$", ((arr or {}).get("ty") or "").strip())
+            if m:
+                n = int(m.group(1))
+        if n is None:
+            return None
+        if self.has_emission(sc["args"][0]):
+            return None
+        tys = []
+        ln = e.get("ln")
+        for arm in e["arms"]:
+            for x in hir_walk(arm["body"]):
+                k = x.get("k")
+                if k in ("if", "closure"):
+                    if self.has_emission(x):
+                        return None
+                elif k in ("match", "loop") and not (x.get("source") or "").startswith("ForLoop"):
+                    if self.has_emission(x):
+                        return None
+                elif k in ("call", "mcall"):
+                    if k == "call" and hir_local_id(x["f"]) is not None:
+                        return None
+                    ev = self.event(x)
+                    if ev is None:
+                        continue
+                    if ev[0] == "operand":
+                        tys.extend(ev[1])
+                        ln = x.get("ln", ln)
+                    elif ev[0] == "helper":
+                        sm = self.summaries[ev[1]]
+                        if sm["emits"]:
+                            return None
+                        tys.extend(sm["lead"])
+                    else:
+                        return None
+        if not tys:
+            return None
+        return [(list(tys), ln)] * n
+
     def scan_fn(self, fn):
         self.fn = fn
         self.pending = None
@@ -247,9 +317,18 @@ class EmitScan:
                 self.walk(e.get("else"))
                 self.close()
             elif k == "match":
+                unrolled = self.fixed_operand_loop(e)
+                if unrolled is not None:
+                    # `for x in [a, b, c] { write_to_vec(x, bytecode) }`: the operands of one pass, once per element
+                    for tys, ln in unrolled:
+                        if self.pending is not None:
+                            self.pending.ops.extend(tys)
+                        elif not self.seen_instr:
+                            self.lead.extend(tys)
+                        else:
+                            self.orphans.append((self.fn, ln, tys))
+                    return
                 self.walk(e["scrut"])
-                if e.get("source", "").startswith("TryDesugar") or e.get("source", "").startswith("ForLoopDesugar") and False:
-                    pass
                 self.close()
                 self.seen_instr = True
                 for a in e["arms"]:
@@ -355,7 +434,33 @@ def emitter_tables(F):
                 changed = True
         if not changed:
             break
-    # resolve parameter-valued opcodes (encode_if_then(skip_instr, ..)) from call sites
+    # resolve parameter-valued opcodes (encode_if_then(skip_instr, ..)) from call sites, through callers that pass their
+    # own parameter on (compile_conditional(skip_instr) -> encode_if_then(skip_instr, ..))
+    by_short = dict((f.short, f) for f in fns)
+
+    def param_values(fn_short, idx, depth=0):
+        """one entry per call site (and per opcode a site can pass): variant name, or None if unresolved"""
+        out = []
+        sites = [(c, e, fn) for c, e, fn in scan.calls_to if c == fn_short]
+        for _c, e, fn in sites:
+            args = ([e["recv"]] if e["k"] == "mcall" else []) + list(e["args"])
+            v = resolved_ctor(fn, args[idx]) if idx < len(args) else None
+            if isinstance(v, str):
+                out.append(v)
+            elif isinstance(v, tuple) and v[0] == "multi":
+                out.extend(v[1])
+            elif isinstance(v, tuple) and v[0] == "param" and depth < 4:
+                # the caller's own parameter? (fn may be the enclosing function of a closure body: same hir params)
+                root = by_short.get(fn.short)
+                params = [p_.get("id") for p_ in root.hir["params"]] if root is not None else []
+                if v[1] in params and not hu.let_inits(root).get(v[1]):
+                    sub = param_values(fn.short, params.index(v[1]), depth + 1)
+                    out.extend(sub if sub else [None])
+                else:
+                    out.append(None)
+            else:
+                out.append(None)
+        return out
     emissions = []
     for em in scan.emissions:
         if isinstance(em.var, tuple) and em.var[0] == "multi":
@@ -370,13 +475,11 @@ def emitter_tables(F):
             except ValueError:
                 emissions.append((None, em))
                 continue
-            sites = [(c, e, fn) for c, e, fn in scan.calls_to if c == em.fn.short]
-            if not sites:
+            vals = param_values(em.fn.short, idx)
+            if not vals:
                 emissions.append((None, em))
-            for _c, e, fn in sites:
-                args = ([e["recv"]] if e["k"] == "mcall" else []) + list(e["args"])
-                v = instr_ctor(args[idx]) if idx < len(args) else None
-                emissions.append((v if isinstance(v, str) else None, em))
+            for v in vals:
+                emissions.append((v, em))
         else:
             emissions.append((em.var, em))
     return emissions, scan.orphans, summaries
@@ -442,6 +545,41 @@ def span_table(F):
     return {v: full(v) for v in variants}, f
 
 
+def cursor_advance(F, e, depth=0):
+    """bytes by which a piece of disassembler code moves its cursor: the sum of its `+= <const>` and of the sizes of its
+    decode_value::<T> calls, including those of straight-line crate-local helpers that are handed the cursor (`&mut i`).
+    None if not evaluable."""
+    total = 0
+    for y in hir_walk(e):
+        k = y.get("k")
+        if k == "assign_op" and y["op"] == "AddAssign":
+            val = hu.eval_int(F, y["r"], {}, None)
+            if val is None:
+                return None
+            total += val
+        elif k == "call" and "vm::instr_execution::decode_value" in hir_callee(y):
+            sz = F.size_of(y["f"]["path"].get("args", ["?"])[0])
+            if sz is None:
+                return None
+            total += sz
+        elif k in ("call", "mcall"):
+            args = list(y["args"])
+            gets_cursor = any((hir_strip(a_) or {}).get("k") == "addr_of" and (hir_strip(a_) or {}).get("mutbl") and
+                              hir_local_id(hir_strip(a_)["e"]) is not None for a_ in args)
+            if not gets_cursor:
+                continue
+            h = next((g for g in (F.fn(n, required=False) for n in hir_callee(y)) if g is not None and g.hir), None)
+            if h is None or depth > 3:
+                return None
+            if any(z.get("k") in ("if", "match", "loop") and not (z.get("source") or "").startswith("TryDesugar") for z in hir_walk(h.hir["body"])):
+                return None        # the helper's advance depends on a condition
+            sub = cursor_advance(F, h.hir["body"], depth + 1)
+            if sub is None:
+                return None
+            total += sub
+    return total
+
+
 def disasm_table(F, spans):
     """variant -> bytes the disassembler advances (None = undecided)."""
     f = F.fn("compiled_program::CaoCompiledProgram::disassemble_writer")
@@ -472,24 +610,9 @@ def disasm_table(F, spans):
             for v in names:
                 out[v] = ("span", spans.get(v)) if trailing_span else ("none", None)
             continue
-        total = 0
-        decided = True
-        for y in hir_walk(a["body"]):
-            if y.get("k") == "assign_op" and y["op"] == "AddAssign":
-                val = hu.eval_int(F, y["r"], {}, None)
-                if val is None:
-                    decided = False
-                else:
-                    total += val
-            if y.get("k") == "call" and "vm::instr_execution::decode_value" in hir_callee(y):
-                t = y["f"]["path"].get("args", ["?"])[0]
-                sz = F.size_of(t)
-                if sz is None:
-                    decided = False
-                else:
-                    total += sz
+        total = cursor_advance(F, a["body"])
         for v in names:
-            out[v] = ("own", total if decided else None)
+            out[v] = ("own", total)
     for v in variants:
         out.setdefault(v, ("none", None))
     return out, f
@@ -565,14 +688,13 @@ def dispatch_fn(F):
     return run_dispatch(F)[0]
 
 
-def run_dispatch(F):
-    """Locate the opcode switch of Vm::_run: returns (fn, switch block, {variant: target block}, loop header)."""
+def opcode_switch(F):
+    """The opcode switch of the interpreter, found by what it is - the largest switch on the discriminant of an Instruction
+    in the vm module - wherever it lives: (function, block, {variant: target block})."""
     variants = F.adt(INSTR)["variants"]
     by_discr = {v["discr"]: v["name"] for v in variants}
     best = None
     fn = None
-    # the interpreter loop is found by what it does - the largest switch on an Instruction discriminant in the vm module -
-    # not by its name (today Vm::_run)
     for cand in F.fns:
         if not cand.mir or cand.is_closure or not cand.path.startswith("vm::"):
             continue
@@ -600,12 +722,66 @@ def run_dispatch(F):
     missing = [v["name"] for v in variants if v["name"] not in targets]
     if len(missing) == 1 and fn.blocks[t["otherwise"]]["term"]["k"] != "unreachable":
         targets[missing[0]] = t["otherwise"]
+    return fn, bi, targets
+
+
+def _enclosing_header(fn, sites):
+    """innermost loop header of fn that dominates every block in sites, or None"""
     cfg = fn.cfg
-    headers = [h for (_a, h) in cfg.back_edges() if cfg.dominates(h, bi)]
-    if not headers:
-        raise AnchorMissing("dispatch loop header of the interpreter loop")
-    header = max(headers, key=lambda h: len(cfg.dom[h]))
-    return fn, bi, targets, header
+    hs = [h for (_a, h) in cfg.back_edges() if all(cfg.dominates(h, b) for b in sites)]
+    return max(hs, key=lambda h: len(cfg.dom[h])) if hs else None
+
+
+def dispatch_info(F):
+    """The interpreter loop, also when the opcode switch lives in a private function that the loop calls once per
+    iteration (driver loop + `execute_instruction`). Returns a dict:
+       fn        the function that holds the dispatch loop (the driver)
+       sites     the blocks of fn where an instruction is dispatched: the opcode switch itself, or the call(s) of the
+                 function through which the opcode switch is reached
+       header    the loop header in fn
+       switch_fn, switch_block, targets   the opcode switch
+       chain     [fn, .., switch_fn]   the functions from the loop down to the switch
+       stray     [(function, line)] calls of a chain member from outside the loop chain: dispatches that bypass the loop
+    (same keys as rules.c03.run_dispatch2, which it replaces)"""
+    cached = getattr(F, "_dispatch_info", None)
+    if cached is not None:
+        return cached
+    sfn, sw, targets = opcode_switch(F)
+    cur, sites, chain, stray = sfn, [sw], [sfn], []
+    for _ in range(4):
+        header = _enclosing_header(cur, sites)
+        if header is not None:
+            d = {"fn": cur, "sites": sites, "header": header, "switch_fn": sfn, "switch_block": sw, "targets": targets,
+                 "chain": chain, "stray": stray}
+            F._dispatch_info = d
+            return d
+        callers = []
+        for g in F.fns:
+            if not g.mir or g is cur:
+                continue
+            bs = [bi for bi, t in mu.calls(g) if cur.short in callee_names(t["func"]) and bi in g.cfg.reach]
+            if bs:
+                callers.append((g, bs))
+        looping = [(g, bs) for g, bs in callers if not g.is_closure and _enclosing_header(g, bs) is not None]
+        if len(looping) == 1:
+            pick = looping[0]
+        elif len(callers) == 1 and not callers[0][0].is_closure:
+            pick = callers[0]
+        else:
+            break
+        stray.extend((g.short, g.blocks[bs[0]]["term"].get("ln")) for g, bs in callers if g is not pick[0])
+        cur, sites = pick
+        chain.insert(0, cur)
+    raise AnchorMissing("dispatch loop header of the interpreter loop")
+
+
+def run_dispatch(F):
+    """Locate the opcode switch of the interpreter: returns (fn, switch block, {variant: target block}, loop header) with
+    fn the function that holds the switch. When the dispatch loop is in the same function (Vm::_run today) `loop header` is
+    its header: an arm ends where control gets back to it. When the switch lives in a function of its own that a driver loop
+    calls once per instruction, `loop header` is None: an arm ends at the return of fn (dispatch_info(F) has the driver)."""
+    d = dispatch_info(F)
+    return d["switch_fn"], d["switch_block"], d["targets"], (d["header"] if d["fn"] is d["switch_fn"] else None)
 
 
 def decoder_table(F):
@@ -614,7 +790,6 @@ def decoder_table(F):
     cache = {}
     out = {}
     for v, tb in targets.items():
-        exits = {header} | set(fn.cfg.return_blocks())
         # stop at the loop header: treat it as an exit, do not traverse through it
         evs = region_decodes_arm(F, fn, tb, header, err, cache)
         out[v] = evs
@@ -623,6 +798,9 @@ def decoder_table(F):
 
 def region_decodes_arm(F, fn, start, header, err, cache):
     cfg = fn.cfg
+    if header is None:
+        # the switch has a function of its own: the arm ends at its return
+        return region_decodes(F, fn, start, set(cfg.return_blocks()), err, cache, 0)
     # temporarily treat header as a sink: compute on a view where header has no successors
     saved = cfg.succ[header]
     cfg.succ[header] = []
@@ -738,6 +916,8 @@ def arm_can_fail(F, run_fn, start, header):
     """Does the arm region contain an error exit (a `?`/Err return path)?"""
     cfg = run_fn.cfg
     err = mu.error_exit_blocks(run_fn)
+    if header is None:
+        return bool(cfg.reachable_from(start) & err)
     saved = cfg.succ[header]
     cfg.succ[header] = []
     try:
@@ -895,6 +1075,59 @@ def value_is_current_len(f, e, emitting_lines=()):
     return lo is not None and hi is not None and lo <= hi and not any(lo <= ln <= hi for ln in emitting_lines)
 
 
+def slice_patch_parts(scan, x):
+    """`<..>.program.bytecode[i .. i + K].copy_from_slice(&v.to_ne_bytes())` -> (index expr i, K expr, value expr v),
+    else None: the safe spelling of the raw in-place write"""
+    if x.get("k") != "mcall" or x.get("name") not in ("copy_from_slice", "clone_from_slice") or not x["args"]:
+        return None
+    r = hu.strip_all(x["recv"])
+    if r is None or r.get("k") != "index" or not scan.is_bytecode(r["e"]):
+        return None
+    rng = hir_strip(r["idx"])
+    if rng is None or rng.get("k") != "struct" or not short(rng["path"]["res"].get("path", "")).endswith("ops::Range"):
+        return None
+    flds = dict((fl["name"], fl["e"]) for fl in rng["fields"])
+    if set(flds) != {"start", "end"}:
+        return None
+    start, end = hu.strip_casts(flds["start"]), hu.strip_casts(flds["end"])
+    if hir_local_id(start) is None or end.get("k") != "bin" or end["op"] != "Add":
+        return None
+    l, rr = hu.strip_casts(end["l"]), hu.strip_casts(end["r"])
+    if hir_local_id(l) == hir_local_id(start):
+        width = rr
+    elif hir_local_id(rr) == hir_local_id(start):
+        width = l
+    else:
+        return None
+    src = hu.strip_all(x["args"][0])
+    if src is None or src.get("k") != "mcall" or src["name"] != "to_ne_bytes":
+        return None
+    return start, width, src["recv"]
+
+
+def is_raw_patch(scan, x):
+    """a write into bytes the bytecode already holds: ptr::write(_unaligned) or the slice form above"""
+    if x.get("k") == "call" and any(n in PATCH_WRITES for n in hir_callee(x)):
+        return True
+    return slice_patch_parts(scan, x) is not None
+
+
+def raw_patch_parts(F, scan, f, x, emitting_lines=()):
+    """(index local id | None, value-is-current-len, written type) of a raw patch node"""
+    sp = slice_patch_parts(scan, x)
+    if sp is not None:
+        start, width, val = sp
+        ty = (hu.strip_casts(val) or {}).get("ty") or (hir_strip(val) or {}).get("ty") or "?"
+        w = hu.eval_int(F, width, {}, None)
+        if w is None or F.size_of(ty) != w:
+            ty = "%s in a %s-byte slice" % (ty, w)
+        return hir_local_id(start), value_is_current_len(f, val, emitting_lines), ty
+    args = x["args"]
+    if len(args) != 2:
+        return None, False, "?"
+    return hu.patch_index_local(f, args[0]), value_is_current_len(f, args[1], emitting_lines), (x["f"]["path"].get("args") or ["?"])[0]
+
+
 def _call_args(x):
     return ([x["recv"]] if x["k"] == "mcall" else []) + list(x["args"])
 
@@ -905,25 +1138,41 @@ def jump_helpers(F):
                and that returns bytecode.len() read before that write with nothing emitted in between
                (`let i = len(); write(placeholder); i`): a call `x = reserve(K)` is `x = len(); write(K)`;
       patch    a method whose only effect on the bytecode is one raw write `*(as_mut_ptr().add(p)) = bytecode.len()`
-               at an index that is its parameter p: a call `patch(x)` is that write at index x."""
+               (or `bytecode[p..p+K].copy_from_slice(&len.to_ne_bytes())`) at an index that is its parameter p: a call
+               `patch(x)` is that write at index x;
+      emit     a method that pushes a jump opcode followed by an operand that is its parameter: each call site must pass
+               a position derived from bytecode.len()."""
     scan = EmitScan(F, {})
-    reserve, patch = {}, {}
+    reserve, patch, emit = {}, {}, {}
     for g in compiler_fns(F):
         writes, patches, other = [], [], 0
+        ordered = []
         for x in hir_walk(g.hir["body"]):
             if x.get("k") not in ("call", "mcall"):
                 continue
             names = hir_callee(x)
             if "bytecode::write_to_vec" in names and scan.is_bytecode(x["args"][1]):
                 writes.append(x)
-            elif any(n in PATCH_WRITES for n in names):
+                ordered.append(("operand", x))
+            elif is_raw_patch(scan, x):
                 patches.append(x)
+            elif "compiler::Compiler::push_instruction" in names:
+                ordered.append(("instr", x))
+                other += 1
             elif x.get("k") == "call" and hir_local_id(x["f"]) is not None:
                 other += 1          # a callback is invoked
             elif any(n.startswith("compiler::Compiler::") and n != g.short for n in names) or \
                     (x["k"] == "mcall" and scan.is_bytecode(x["recv"]) and x["name"] not in ("len", "as_mut_ptr", "is_empty")):
                 other += 1
         params = [p_.get("id") for p_ in g.hir["params"]]
+        # a helper that emits a jump to a position it is given: `push_instruction(<jump>); write_to_vec(param)`
+        for n_, (kind, x) in enumerate(ordered):
+            if kind == "instr" and n_ + 1 < len(ordered) and ordered[n_ + 1][0] == "operand":
+                v = resolved_ctor(g, x["args"][0])
+                opn = ordered[n_ + 1][1]
+                lid = hir_local_id(hu.strip_casts(opn["args"][0]))
+                if isinstance(v, str) and v in JUMPS and lid in params and not hu.let_inits(g).get(lid):
+                    emit.setdefault(g.short, []).append({"variant": v, "param": params.index(lid), "node": opn, "fn": g})
         if len(writes) == 1 and not patches and not other:
             w = writes[0]
             val = hu.strip_casts(w["args"][0])
@@ -938,13 +1187,10 @@ def jump_helpers(F):
                                     "ty": w["f"]["path"].get("args", ["?"])[0], "fn": g}
         elif len(patches) == 1 and not writes and not other:
             pw = patches[0]
-            if len(pw["args"]) != 2:
-                continue
-            idx = hu.patch_index_local(g, pw["args"][0])
+            idx, val_ok, ty = raw_patch_parts(F, scan, g, pw)
             if idx is not None and idx in params:
-                patch[g.short] = {"param": params.index(idx), "val_ok": value_is_current_len(g, pw["args"][1]),
-                                  "ty": (pw["f"]["path"].get("args") or ["?"])[0], "fn": g, "node": pw}
-    return {"reserve": reserve, "patch": patch}
+                patch[g.short] = {"param": params.index(idx), "val_ok": val_ok, "ty": ty, "fn": g, "node": pw}
+    return {"reserve": reserve, "patch": patch, "emit": emit}
 
 
 def callback_always_invoked(F):
@@ -982,8 +1228,9 @@ def jump_fn(F, f, helpers=None):
     res = []
     scan = EmitScan(F, {})
     labels = arm_labels(f)
-    helpers = helpers or {"reserve": {}, "patch": {}}
-    reserve, patchers = helpers["reserve"], helpers["patch"]
+    helpers = helpers or {"reserve": {}, "patch": {}, "emit": {}}
+    reserve, patchers, emitters = helpers["reserve"], helpers["patch"], helpers.get("emit", {})
+    deferred_operands = [h["node"] for h in emitters.get(f.short, [])]
 
     def fname(node):
         lab = labels.get(id(node))
@@ -997,8 +1244,11 @@ def jump_fn(F, f, helpers=None):
                 events.append(("instr", x, resolved_ctor(f, x["args"][0])))
             elif "bytecode::write_to_vec" in names and scan.is_bytecode(x["args"][1]):
                 events.append(("operand", x, x["f"]["path"].get("args", ["?"])[0]))
-            elif any(n in PATCH_WRITES for n in names):
+            elif is_raw_patch(scan, x):
                 events.append(("patch", x, None))
+            elif any(n in emitters for n in names):
+                for h in next(emitters[n] for n in names if n in emitters):
+                    events.append(("jumpcall", x, h))
             elif any(n in reserve for n in names):
                 events.append(("operand", x, next(reserve[n] for n in names if n in reserve)["ty"]))
             elif any(n in patchers for n in names):
@@ -1041,7 +1291,9 @@ def jump_fn(F, f, helpers=None):
                 op = events[i + 1][1]
                 val = written_value(op)
                 vname = v if isinstance(v, str) else "param:" + v[2]
-                if val is not None and is_const_placeholder(val):
+                if any(op is d_ for d_ in deferred_operands):
+                    pass        # the operand is this helper's parameter: decided at each call site
+                elif val is not None and is_const_placeholder(val):
                     placeholders.append((vname, op, placeholder_name(val)))
                 elif val is not None and hu.derives_from_len(val, len_locals):
                     res.append(ok("C10.J", "C10/J/%s/%s/target-from-len@%s" % (fname(op), vname, hu.local_name(val) or "expr"),
@@ -1051,6 +1303,16 @@ def jump_fn(F, f, helpers=None):
                                    "jump operand is neither a placeholder literal nor derived from bytecode.len()"))
             else:
                 res.append(bad("C10.J", "C10/J/%s/%s/no-operand" % (fname(x), v), f.loc(x["ln"]), "jump opcode without i32 operand"))
+        if kind == "jumpcall":
+            h = events[i][2]
+            a = _call_args(x)
+            arg = hir_strip(a[h["param"]]) if h["param"] < len(a) else None
+            if arg is not None and hu.derives_from_len(arg, len_locals):
+                res.append(ok("C10.J", "C10/J/%s/%s/target-from-len@%s" % (fname(x), h["variant"], hu.local_name(arg) or "expr"),
+                              f.loc(x["ln"]), "jump operand (written by %s) derives from bytecode.len()" % h["fn"].name))
+            else:
+                res.append(bad("C10.J", "C10/J/%s/%s/target-origin" % (fname(x), h["variant"]), f.loc(x["ln"]),
+                               "the jump target handed to %s is neither a placeholder that gets patched nor derived from bytecode.len()" % h["fn"].name))
         if kind == "patch":
             patches.append((x, events[i][2]))
         i += 1
@@ -1065,13 +1327,8 @@ def jump_fn(F, f, helpers=None):
             continue
         if f.short in patchers and patchers[f.short]["node"] is p:
             continue        # the body of a patch helper: its call sites are decided instead
-        # write_unaligned(ptr, value): value must be bytecode.len() (cast); ptr must derive from as_mut_ptr().add(idx) with idx in len_locals
-        args = p["args"]
-        if len(args) != 2:
-            continue
-        val_ok = value_is_current_len(f, args[1], [e_[1].get("ln") for e_ in events if e_[0] in ("instr", "operand", "if_then")])
-        idx = hu.patch_index_local(f, args[0])
-        ty = (p["f"]["path"].get("args") or ["?"])[0]
+        # raw write: the value must be bytecode.len() as of now; the index must be a local assigned from bytecode.len()
+        idx, val_ok, ty = raw_patch_parts(F, scan, f, p, [e_[1].get("ln") for e_ in events if e_[0] in ("instr", "operand", "if_then", "jumpcall")])
         good_patches.append((p, val_ok, idx, ty))
     used = set()
     for vname, op, lit in placeholders:
@@ -1466,7 +1723,11 @@ def rule_s(F):
     ok_bytes = False
     for x in ext:
         a = hir_strip(x["args"][0])
-        if a.get("k") == "mcall" and any(n.endswith("str::as_bytes") or n.endswith("::as_bytes") for n in hir_callee(a)):
+        lid = hir_local_id(a)
+        if lid is not None and len(hu.let_inits(enc).get(lid, [])) == 1:
+            a = hir_strip(hu.let_inits(enc)[lid][0])     # `let payload = s.as_bytes(); .. extend_from_slice(payload)`
+        if a.get("k") == "mcall" and any(n.endswith("str::as_bytes") or n.endswith("::as_bytes") for n in hir_callee(a)) \
+                and hir_local_id(hu.strip_all(a["recv"])) in [p_.get("id") for p_ in enc.hir["params"]]:
             ok_bytes = True
     if ok_bytes and len(ext) == 1:
         res.append(ok("C10.S", "C10/S/encode_str/payload", enc.loc(), "payload = s.as_bytes() appended once"))
@@ -1597,7 +1858,9 @@ def rule_a(F):
                 findings.append(("violation", "bytecode.take", c, "removes"))
             elif k == "index" and c["e"] is top:
                 t2, c2, _al = climb(c)
-                if c2 is not None and c2.get("k") in ("assign", "assign_op") and c2["l"] is t2:
+                if c2 is not None and c2.get("k") == "mcall" and c2["recv"] is t2 and slice_patch_parts(scan, c2) is not None:
+                    counts["patch"] += 1        # bytecode[i..i+K].copy_from_slice(&v.to_ne_bytes()): a write, decided by C10.J
+                elif c2 is not None and c2.get("k") in ("assign", "assign_op") and c2["l"] is t2:
                     findings.append(("undecided", "bytecode.index-write", c, "the bytecode is written by index (not the as_mut_ptr patch that C10.J decides)"))
                 else:
                     findings.append(("violation", "bytecode.index", c, "inspects"))
